@@ -9,6 +9,7 @@ NAMES = {0: 'FftPlan(n)(x[n2])', 1: 'FftPlanR(n)(x[n2])', 2: 'IfftPlan(n)(x[n2])
          36: 'FIRDecimator(n)(x[n2])', 37: 'FIRRateConverter(n,n3)(x[n2])', 38: 'FIRInterpolator(n, h[n3])(x[n2])', 39: 'HilbertFilter(n)(x[n2])',
          40: 'xcorr(a[n], b[n2])', 41: 'finddelay(a[n], b[n2])', 42: 'peakloc(x[n], idx=n2, cyclic=n3)', 43: 'welch(x[n2], winlen n)', 44: 'stft(x[n2], nfft n)', 45: 'resample(x[n2], n, n3)',
          46: 'zeropad(x[n], n2)', 47: 'delayseq(x[n], n2)', 48: 'downsample(x[n], n2, phase n3)', 49: 'upsample(x[n], n2, phase n3)', 50: 'hilbert(x[n], n2)', 51: 'fft(x[n], n2)', 52: 'irfft(X[n2], n)',
+         60: '*x.slice(i1,i2,step)', 61: 'x.slice(i1,i2,step) = scalar', 62: 'x.slice(i1,i2,step) = array[n2]', 63: '*const cmplx x.slice(i1,i2,step)',
          53: 'fir1(n, 0.3)', 54: 'window::hann(n)', 55: 'repelem(x[n], n2)', 56: 'flip(x[n])', 57: 'medfilt(x[n], n2)', 58: 'mscohere(x[n2], y[n2], winlen n)', 59: 'linspace(a, b, n)'}
 
 def rel(n): return sorted({0, 1, 2, 3, max(n - 1, 0), n, n + 1, 2 * n})
@@ -108,13 +109,13 @@ def job_progs(res, progs):
         mode = 'assert' if what.startswith('assume') else True     # a violated DSPLIB_ASSUME is confirmed by the assert() it carries in a non-NDEBUG build
         confirm(res, PID, HARNESS, 'h_prog', spec, 'i32', 'ub', ORACLES, key, f'{label}: undefined behaviour: {what[:400]}', san=mode, timeout=120)
 
-def job_index(res, pid, n, ni):
-    """index lists with fully symbolic 32-bit entries (and the empty list)"""
+def job_index(res, pid, n, ni, n2=0):
+    """index lists / slice triples with fully symbolic 32-bit entries (and the empty list)"""
     mod, so = load(HARNESS); xv = [0.25 + 0.37 * math.sin(1.7 * i) for i in range(XPOOL)]
-    label = f'{NAMES[pid]} on n={n} with {ni} symbolic index entries'
+    label = f'{NAMES[pid]} on n={n} with {ni} symbolic integer arguments'
     def setup(m):
         idx = [bvsym(f'k{j}', 32) for j in range(ni)]
-        return [pid, n, 0, 0, m.alloc_doubles(xv, 'x'), m.alloc_ints(idx if ni else [0], 32, 'idx'), ni, m.alloc_doubles([0.0] * XPOOL, 'y')], idx
+        return [pid, n, n2, 0, m.alloc_doubles(xv, 'x'), m.alloc_ints(idx if ni else [0], 32, 'idx'), ni, m.alloc_doubles([0.0] * XPOOL, 'y')], idx
     done = set()
     for p in explore(mod, '@h_prog', setup, max_paths=400, max_steps=20_000_000):
         if p.out == 'pathbudget': res.inc(f'{label}: path budget'); break
@@ -126,11 +127,11 @@ def job_index(res, pid, n, ni):
         if not ubs:
             res.ob(True, 'BV+P-MEM', f'{label}: path ({p.out}, |pc|={len(p.m.pc)}): for every index value on the path all accesses stay inside the array'); continue
         for (k, msg, mdl, wh) in ubs:
-            key = f'ub:index-list:{"empty" if ni == 0 else "entries"}:{site_key(str(wh))}'
+            key = f'ub:{"slice" if pid >= 60 else "index-list"}:{"empty" if ni == 0 else "entries"}:{site_key(str(wh))}'
             if key in done: continue
             done.add(key)
             iv = [model_int(mdl, f'k{j}') for j in range(ni)]
-            confirm(res, PID, HARNESS, 'h_prog', [('i32', pid), ('i32', n), ('i32', 0), ('i32', 0), ('pf64', xv), ('pi32', iv if ni else [0]), ('i32', ni), ('pf64', [0.0] * XPOOL)], 'i32', 'ub', ORACLES, key,
+            confirm(res, PID, HARNESS, 'h_prog', [('i32', pid), ('i32', n), ('i32', n2), ('i32', 0), ('pf64', xv), ('pi32', iv if ni else [0]), ('i32', ni), ('pf64', [0.0] * XPOOL)], 'i32', 'ub', ORACLES, key,
                     f'{label}: undefined behaviour for index list {[sgn(v, 32) for v in iv]}: {str(msg)[:300]}', san=True, timeout=120, suspect_is_inconclusive=False)
 
 def job_pow2(res):
@@ -162,6 +163,9 @@ def main(tier, seed):
     for pid in (20, 21, 22):
         for (n, ni) in ([(3, 0), (3, 1), (3, 2), (1, 3)] if tier == 'quick' else [(3, 0), (3, 1), (3, 2), (1, 3), (5, 3), (2, 4)]):
             jobs.append((f'{NAMES[pid]} n={n} ni={ni}', 'index', dict(pid=pid, n=n, ni=ni), 1500))
+    for pid in (60, 61, 62, 63):
+        for n in ((1, 3) if tier == 'quick' else (1, 2, 3, 4)):
+            jobs.append((f'{NAMES[pid]} n={n}', 'index', dict(pid=pid, n=n, ni=3, n2=2 if pid == 62 else 0), 1500))
     jobs.append(('pow2 helpers', 'pow2', {}, 600))
     return run_property(PID, tier, HARNESS, jobs, JOBFNS,
         level_text='Every public entry point in the program table is executed by the symbolic interpreter with every memory / arithmetic obligation switched on (bounds of live blocks, use-after-free, '
